@@ -72,8 +72,17 @@ def run_functions(index, registry, quals, models, timeout_ms, seed, second=None,
             rec["notes"] = {k: sorted(set(v)) for k, v in kinds.items()}
             rec["effects"] = sorted(set("%s@%s" % e for e in eng.effects))
             rec["assumed_callee_contracts"] = sorted(eng.assumed_contracts)
+            # callee contracts used here whose bodies are not verified for this property: trusted (never verified) or
+            # verified under another property's function list
+            rec["callee_contracts_not_verified_here"] = sorted(
+                (u + (" [TRUSTED: %s]" % registry[u].trusted_reason if getattr(registry.get(u), "trusted", False) else " [body verified under another property or not at all]"))
+                for u in eng.used_contracts if u not in quals and u != q)
             c = registry[q]
             rec["assumed"] = [a.name + ": " + a.expr + "  (" + getattr(a, "why", "") + ")" for a in c.assume]
+            for u in sorted(eng.used_contracts):
+                for a in getattr(registry.get(u), "ensures", []):
+                    if getattr(a, "assumed", False):
+                        rec["assumed"].append("assumed postcondition of %s: %s: %s  (%s)" % (u, a.name, a.expr, getattr(a, "why", "")))
             rec["requires"] = [a.name + ": " + a.expr for a in c.requires]
             missing = [h for h in c.hooks if h not in eng.hooks_fired] + [h for h in c.chooses if ("choose:" + h) not in eng.hooks_fired] + [cut["key"] for k, cut in enumerate(c.cuts) if k not in eng.cuts_fired]
             if missing:
@@ -361,7 +370,7 @@ def main():
             "functions_under_contract": [{"function": r["function"], "source_hash": r.get("source_hash"), "status": r["status"],
                                           "obligations": len(r["obligations"]), "discharged": sum(1 for o in r["obligations"] if o["result"] == "unsat"),
                                           "solver_s": round(sum(o["secs"] for o in r["obligations"]), 2), "backend": (r["obligations"][0]["backend"] if r["obligations"] else None),
-                                          "preconditions": r.get("requires", []), "assumed_unchecked": r.get("assumed", []) + ["assumed (bounded-checked) contract of " + q for q in r.get("assumed_callee_contracts", [])],
+                                          "preconditions": r.get("requires", []), "assumed_unchecked": r.get("assumed", []) + ["assumed (bounded-checked) contract of " + q for q in r.get("assumed_callee_contracts", [])] + ["callee contract used, body not verified in this check: " + q for q in r.get("callee_contracts_not_verified_here", [])],
                                           "opaque_sites": r.get("notes", {}), "error": r.get("error")} for r in recs],
             "top_level_obligations": [o["name"] for r in recs for o in r["obligations"] if o["top"] and pid in o["props"]] + [e["name"] for e in extra if e.get("top")],
             "scan_obligations": extra,
